@@ -176,8 +176,16 @@ def _space_uses(repo, col, cl: Classifier):
                     for br, kcl in ((w.args[1], cls_true), (w.args[2], cls_false)):
                         for n_ in ast.walk(br):
                             restrict[id(n_)] = kcl
+                        # an alternative that was computed into a temporary first: the membership tests inside its DEFINING term
+                        # belong to that alternative as well (identified by the syntax node the term was built from)
+                        for x_ in ex.term(br).walk():
+                            if x_.node is not None:
+                                restrict.setdefault(id(x_.node), kcl)
                     for n_ in ast.walk(w.args[0]):
                         restrict[id(n_)] = "test"
+                    for x_ in ex.term(w.args[0]).walk():
+                        if x_.node is not None:
+                            restrict[id(x_.node)] = "test"
         for c in ex.calls:
             if isinstance(c.func, ast.Attribute) and c.func.attr == "isin":
                 if restrict.get(id(c)) == "test":
